@@ -530,12 +530,17 @@ Definition lsf_dom (c : case) : bool :=
   && negb (has (s "job-name") (st_res st)) && negb (has (s "output") (st_res st))
   && negb (has (s "error") (st_res st)).
 
-(** what the Flux adapter needs on top: a walltime it can convert, a batch-level
-    node count that is not a false value, printable -o options *)
+(** what the Flux adapter needs on top: a walltime it can convert (and not
+    [None]), a batch-level node count that is not a false value, one-line
+    version / uri / broker texts, printable -o options *)
 Definition flux_dom (c : case) : bool :=
   let st := c_step c in
   match flux_seconds (declared (st_res st) RWalltime) with Some _ => true | None => false end
+  && match lookup (s "walltime") (st_res st) with Some VNone => false | _ => true end
   && match lookup (s "nodes") (b_kw (c_batch c)) with Some v => truthy v | None => true end
+  && negb (memb nl (c_broker c))
+  && match lookup (s "version") (b_kw (c_batch c)) with Some v => negb (memb nl (render v)) | None => true end
+  && match lookup (s "uri") (b_kw (c_batch c)) with Some v => negb (memb nl (render v)) | None => true end
   && forallb (fun kv : str * str => safe_tok (fst kv) && safe_tok (snd kv)
                                      && negb (memb 44 (fst kv ++ snd kv)) && negb (memb 61 (fst kv)))
              (b_args (c_batch c)).
